@@ -10,7 +10,7 @@ RULE = ("templates = typed filters of the ORM fragment (all operators, in-lists,
         "GUID comparisons) whose literal holes (string, int, real, date, date-time, GUID, list elements; booleans "
         "and null are keywords, not values) are filled by two assignments of distinct sentinel values (strings "
         "with SQL metacharacters and a unique marker - some with 17+ quotes or 40 wildcards and hundreds of characters -, integers >= 10^6 and beyond 64 bits, decimals with 17 and 35+ significant digits ...); compiled (not executed) through "
-        "Django sql_with_params, SQLAlchemy ORM and Core compile. Oracle: both assignments give the identical SQL "
+        "Django sql_with_params, SQLAlchemy ORM and Core compile (for the SQLite engine and, compile-only, for the PostgreSQL, MySQL, SQL Server and Oracle dialects). Oracle: both assignments give the identical SQL "
         "string and no sentinel's text occurs in it (how many sentinels reach the parameter list is measured: an ORM may fold constant sub-conditions away). Non-trivial: >= 1 "
         "string hole inside a function argument or list, or >= 3 holes; distinct by (template, backend)."
         " On SQLAlchemy, assignment A gives all elements of an in-list the same value (the SQL must not depend on whether values repeat); every second string of assignment B is plain (the SQL must not depend on whether metacharacters occur).")
@@ -98,15 +98,31 @@ def compile_backend(name, text):
         return sql, list(params)
     from odata_query.sqlalchemy import apply_odata_core, apply_odata_query
     S = db_orm.sqlalchemy_models()
-    if name == "sqlalchemy-orm":
+    base, _, dialect = name.partition("@")
+    if base == "sqlalchemy-orm":
         stmt = apply_odata_query(S.sa.select(S.Item), text)
     else:
         stmt = apply_odata_core(S.sa.select(S.Item.__table__), text)
-    c = stmt.compile(S.engine)
+    if dialect:
+        # compiled (never executed) for another engine's dialect: no driver is needed for that
+        import importlib
+        from sqlalchemy.exc import CompileError
+        d = importlib.import_module("sqlalchemy.dialects." + dialect).dialect()
+        try:
+            c = stmt.compile(dialect=d)
+        except CompileError as e:
+            raise DialectRefuses(str(e))
+    else:
+        c = stmt.compile(S.engine)
     return str(c), list(c.params.values())
 
 
-BACKENDS = ["django", "sqlalchemy-orm", "sqlalchemy-core"]
+class DialectRefuses(Exception):
+    """SQLAlchemy itself cannot render a construct for that dialect (counted, not judged)."""
+
+
+BACKENDS = ["django", "sqlalchemy-orm", "sqlalchemy-core", "sqlalchemy-orm@postgresql", "sqlalchemy-core@mysql",
+            "sqlalchemy-orm@mssql", "sqlalchemy-core@oracle"]
 
 
 def check_case(case):
@@ -122,7 +138,7 @@ def check_case(case):
         try:
             sa_, pa = compile_backend(name, xa)
             sb_, pb = compile_backend(name, xb)
-        except exceptions.ODataException as e:
+        except (exceptions.ODataException, DialectRefuses) as e:
             case.setdefault("_refused", []).append(name)
             continue
         except Exception as e:
